@@ -734,7 +734,9 @@ fn replay_one<T: PairT>(h: &Value, ops: &[POp], specs: &[PSlot], e: &PairEmb, wa
     let fam = want.family.as_str();
     rep.replays += 1;
     let mut w = World::<T>::new(k);
-    w.parity = parity;
+    // parity & 1: Clone variant; parity & 2: all accessors of all objects are read after every step too
+    w.parity = parity % 2;
+    let reads_between = parity >= 2;
     let has_ckpt = ops.iter().any(|o| matches!(o, POp::Ckpt(_)));
     for (step, op) in ops.iter().enumerate() {
         if let (true, POp::Merge(d, s)) = (want.is("C11"), op) {
@@ -786,6 +788,11 @@ fn replay_one<T: PairT>(h: &Value, ops: &[POp], specs: &[PSlot], e: &PairEmb, wa
             continue;
         }
         apply(&mut w, op, e, false);
+        if reads_between {
+            for s in 0..k {
+                let _ = obs_bits(&w.slots[s]);
+            }
+        }
     }
     for s in 0..k {
         if w.ghost[s] != specs[s].data {
@@ -845,7 +852,7 @@ fn replay_one<T: PairT>(h: &Value, ops: &[POp], specs: &[PSlot], e: &PairEmb, wa
     }
     if want.is("C18") && has_ckpt {
         let mut w1 = World::<T>::new(k);
-        w1.parity = parity;
+        w1.parity = parity % 2;
         for (step, op) in ops.iter().enumerate() {
             if let POp::Ckpt(s) = op {
                 let before = obs_bits(&w1.slots[*s]);
@@ -911,7 +918,13 @@ fn run_type<T: PairT>(h: &Value, ops: &[POp], specs: &[PSlot], want: &PWant, rep
             Some((o, s)) => (o, s),
             None => (ops, specs),
         };
-        let parities: &[usize] = if ops.iter().any(|o| matches!(o, POp::Clone(_, _))) { &[0, 1] } else { &[0] };
+        let clones = ops.iter().any(|o| matches!(o, POp::Clone(_, _)));
+        let parities: &[usize] = match (clones, ops.len() >= 2) {
+            (true, true) => &[0, 1, 2, 3],
+            (true, false) => &[0, 1],
+            (false, true) => &[0, 2],
+            (false, false) => &[0],
+        };
         for &parity in parities {
             let r = std::panic::catch_unwind(std::panic::AssertUnwindSafe(|| replay_one::<T>(h, ops, specs, e, want, &mut *rep, parity)));
             if r.is_err() {
